@@ -368,7 +368,7 @@ func init() {
 	register(ruleTraversal)
 	addProp(&PropSpec{
 		ID:          "C15",
-		Rules:       []string{"R-TRAVERSAL", "R-STATE", "R-POLL", "R-MODEGUARD", "R-ONELEVEL", "R-LEAF", "R-EMITORDER", "R-ERRDISCARD"},
+		Rules:       []string{"R-TRAVERSAL", "R-STATE", "R-POLL", "R-MODEGUARD", "R-ONELEVEL", "R-LEAF", "R-EMITORDER", "R-ERRDISCARD", "R-CTORID", "R-UNWRAPTHREAD", "R-ADDRKEY"},
 		Explanation: "'Every node at depth a..b exactly once, in pre-order' quantifies over tree shapes, but the traversal that implements it is one small recursive function whose per-element step is a finite decision procedure. Its complete table over (level, first, last, leaf?) is extracted and compared with the stated rule; the recursion is shown to descend into the children of the element just visited with level+1 and otherwise unchanged arguments, after the element itself, inside a single loop over the sequence; every outside caller starts it at level 1 with the right bounds; the .** override of structural errors is forced and restored. These are necessary conditions of C15 — breaking any of them changes which nodes are visited — not a proof of 'exactly once'.",
 		Decided: []string{"R-TRAVERSAL: step table (emit iff first ≤ level ≤ last, or leaf under {last}; descend iff level < last), descent structure, pre-order, callers' bounds, forced ignore flag below .**",
 			"R-STATE: the override is restored on every exit", "R-POLL: the recursion polls the context", "R-LEAF: empty containers have non-nil children, so only scalars are leaves"},
